@@ -5,7 +5,7 @@ from ..hworld import HWorld
 
 ID = "C01"
 LEVEL = "exploration"
-RUNS = {"quick": 4000, "thorough": 100000}
+RUNS = {"quick": 12000, "thorough": 200000}
 RULE = (
     "each run: seeded swarm configuration (key pool with prefix-related, nibble-unaligned and 20/32-byte keys, "
     "value menu, prune on/off, lru-cache knob, op weights) and a history of 10-80 mutation events by a writer actor "
